@@ -44,26 +44,29 @@ GoodAfter(e) ==
     [] e.a = "Report" -> GoodAfterReport(e.args.w, e.args.l, e.args.e)
     [] e.a = "ReportApply" -> GoodAfterReport(pend[e.args.i].w, pend[e.args.i].l, pend[e.args.i].e)
     [] e.a \in {"Shrink", "Expand"} -> IF Stale(e.args.l, e.args.e) THEN good ELSE GoodAfterISR
-    [] e.a \in {"Skip", "ReportCheck"} -> good
+    [] e.a = "ISRApply" -> IF Stale(pend[e.args.i].l, pend[e.args.i].e) /\ e.obs.err = "stale" THEN good ELSE GoodAfterISR
+    [] e.a \in {"Skip", "ReportCheck", "ISRCheck"} -> good
     [] OTHER -> {}      \* Expire, Lose, Remove
 ArmedAfter(e) ==
   CASE e.a = "Open" -> FALSE
     [] e.a = "Report" -> ArmedAfterReport(e.args.w, e.args.l, e.args.e)
     [] e.a = "ReportApply" -> ArmedAfterApply(pend[e.args.i].l, pend[e.args.i].e)
-    [] e.a \in {"Shrink", "Expand", "Skip", "ReportCheck"} -> armed
+    [] e.a \in {"Shrink", "Expand", "Skip", "ReportCheck", "ISRCheck", "ISRApply"} -> armed
     [] e.a = "Expire" -> IF fo.on /\ armed THEN FALSE ELSE armed
     [] e.a = "Remove" -> IF exists THEN FALSE ELSE armed
     [] OTHER -> FALSE   \* Lose
 
 TaintAfter(e) ==
   CASE e.a = "Open" -> FALSE
-    [] e.a = "ReportApply" -> TaintAfterApply(pend[e.args.i].l, pend[e.args.i].e)
+    [] e.a \in {"ReportApply", "ISRApply"} -> TaintAfterApply(pend[e.args.i].l, pend[e.args.i].e)
     [] OTHER -> taint
 
 PropOf(e) ==
   CASE e.a = "Report" -> P_ReportLeader(e.args.w, e.args.l, e.args.e)
     [] e.a = "ReportCheck" -> P_ReportCheck(e.args.w, e.args.l, e.args.e)
     [] e.a = "ReportApply" -> P_ReportApply(e.args.i)
+    [] e.a = "ISRCheck" -> P_ReportCheck(e.args.r, e.args.l, e.args.e)
+    [] e.a = "ISRApply" -> P_ISRApply(e.args.i)
     [] e.a = "Shrink" -> P_ShrinkISR(e.args.r, e.args.l, e.args.e)
     [] e.a = "Expand" -> P_ExpandISR(e.args.r, e.args.l, e.args.e)
     [] e.a = "Remove" -> P_RemoveStream
@@ -73,6 +76,8 @@ ImplOf(e) ==
   CASE e.a = "Report" -> DoReportLeader(e.args.w, e.args.l, e.args.e)
     [] e.a = "ReportCheck" -> DoReportCheck(e.args.w, e.args.l, e.args.e)
     [] e.a = "ReportApply" -> DoReportApply(e.args.i)
+    [] e.a = "ISRCheck" -> DoISRCheck(e.args.k, e.args.r, e.args.l, e.args.e)
+    [] e.a = "ISRApply" -> DoISRApply(e.args.i)
     [] e.a = "Shrink" -> DoShrinkISR(e.args.r, e.args.l, e.args.e)
     [] e.a = "Expand" -> DoExpandISR(e.args.r, e.args.l, e.args.e)
     [] e.a = "Expire" -> DoExpire
